@@ -2,7 +2,7 @@
    hash_outputs / sig_hash_bip143 / sha_prevouts … sha_outputs / sig_hash_bip341 / sig_hash,
    buidl/witness.py Witness.has_annex / control_block / tap_script / tap_leaf and
    buidl/taproot.py TapLeaf.hash, ControlBlock.parse (the checks only), as the code is after the
-   fix: commits 6fa6c1d e9f9502 b2ceef3 6995972 574593a 796d51d.  Definitions only.
+   fix: commits 6fa6c1d e9f9502 b2ceef3 6995972 574593a 796d51d 9c0cf6b.  Definitions only.
 
    Conventions.
    * The amount and scriptPubKey of the outputs being spent are extra inputs ([spent], one per
@@ -22,10 +22,13 @@ From V Require Import Base.Prelude Base.Ints Model.Helper Model.Script Model.Tx.
 (* spent output of an input: TxIn._value, TxIn._script_pubkey *)
 Record spent := { sp_value : Z; sp_script : script }.
 
-(* hash-type tests as written: `hash_type & 3`, `hash_type & SIGHASH_ANYONECANPAY` *)
+(* hash-type tests as written: `hash_type & 3` (BIP341 builder), `hash_type & 0x1F` (legacy and
+   BIP143 builders, after fix 9c0cf6b), `hash_type & SIGHASH_ANYONECANPAY` *)
 Definition ht_base (ht : Z) : Z := Z.land ht 3.
+Definition ht_base5 (ht : Z) : Z := Z.land ht 31.
 Definition ht_acp (ht : Z) : bool := negb (Z.land ht 128 =? 0).
 Definition ht_none_or_single (ht : Z) : bool := (ht_base ht =? 2) || (ht_base ht =? 3).
+Definition ht_none_or_single5 (ht : Z) : bool := (ht_base5 ht =? 2) || (ht_base5 ht =? 3).
 
 (* helper.int_to_byte: bytes([n]) with an explicit range check *)
 Definition int_to_byte (n : Z) : result bytes :=
@@ -82,7 +85,7 @@ Definition legacy_txin (ht : Z) (idx : nat) (code : script) (i : nat) (ti : txin
   let new_in := {| i_prev_tx := i_prev_tx ti; i_prev_index := i_prev_index ti;
                    i_script := if me then code else empty_script;
                    i_sequence := if me then i_sequence ti
-                                 else if ht_none_or_single ht then 0 else i_sequence ti;
+                                 else if ht_none_or_single5 ht then 0 else i_sequence ti;
                    i_witness := [] |} in
   if ht_acp ht then (if me then txin_serialize new_in else Ok [])
   else txin_serialize new_in.
@@ -105,8 +108,8 @@ Fixpoint legacy_single_outs (idx i : nat) (l : list txout) : result bytes :=
   end.
 
 Definition legacy_outs (ht : Z) (idx : nat) (l : list txout) : result bytes :=
-  if ht_base ht =? 2 then encode_varint 0
-  else if ht_base ht =? 3 then
+  if ht_base5 ht =? 2 then encode_varint 0
+  else if ht_base5 ht =? 3 then
     n <- encode_varint (Z.of_nat idx + 1) ;; b <- legacy_single_outs idx 0 l ;; Ok (n ++ b)
   else n <- encode_varint (zlen l) ;; b <- ser_outs l ;; Ok (n ++ b).
 
@@ -115,7 +118,7 @@ Definition legacy_outs (ht : Z) (idx : nat) (l : list txout) : result bytes :=
    always truthy (the class defines neither __bool__ nor __len__). *)
 Definition legacy_preimage (t : tx) (idx : nat) (code : script) (ht : Z) : result (option bytes) :=
   if (length (t_ins t) <=? idx)%nat then Ok None
-  else if (ht_base ht =? 3) && (length (t_outs t) <=? idx)%nat then Ok None
+  else if (ht_base5 ht =? 3) && (length (t_outs t) <=? idx)%nat then Ok None
   else
     v <- int_to_le (t_version t) 4 ;;
     ni <- (if ht_acp ht then encode_varint 1 else encode_varint (zlen (t_ins t))) ;;
@@ -206,15 +209,15 @@ Definition bip143_preimage (t : tx) (sp : list spent) (idx : nat) (redeem wscrip
   | Some ti =>
       v <- int_to_le (t_version t) 4 ;;
       '(m1, hp) <- (if negb (ht_acp ht) then hash_prevouts t m else Ok (m, zero32)) ;;
-      '(m2, hs) <- (if negb (ht_acp ht) && negb (ht_none_or_single ht)
+      '(m2, hs) <- (if negb (ht_acp ht) && negb (ht_none_or_single5 ht)
                     then hash_sequence t m1 else Ok (m1, zero32)) ;;
       pi <- int_to_le (i_prev_index ti) 4 ;;
       code <- bip143_script_code redeem wscript (option_map sp_script (nth_error sp idx)) ;;
       sc <- serialize_script code ;;
       val <- match nth_error sp idx with Some s => int_to_le (sp_value s) 8 | None => Err end ;;
       sq <- int_to_le (i_sequence ti) 4 ;;
-      '(m3, ho) <- (if negb (ht_none_or_single ht) then hash_outputs t m2
-                    else if (ht_base ht =? 3) && (idx <? length (t_outs t))%nat then
+      '(m3, ho) <- (if negb (ht_none_or_single5 ht) then hash_outputs t m2
+                    else if (ht_base5 ht =? 3) && (idx <? length (t_outs t))%nat then
                       match nth_error (t_outs t) idx with
                       | Some o => so <- txout_serialize o ;; Ok (m2, hash256 so)
                       | None => Err
